@@ -112,3 +112,40 @@ def run_trace(job: tuple) -> dict:
         steps.append({"a": a, "o": o})
         last = o
     return {"id": tid, "kind": kind, "item": first["item"], "host": host, "steps": steps}
+
+
+def cross_reads(_job=None) -> list[dict]:
+    """Every token shared by two enumerations that are declared on attributes of the same local name: read at one site, then at the
+    other, in THIS process, in both orders (twice over: a value remembered from the first pass would show in the second)."""
+    import collections
+    from mbt.extract import simpletypes as S
+    from mbt.drive import simpletypes as D
+    pairs, _xsd, _rows = S.pairs()
+    by = collections.defaultdict(list)
+    for p in pairs:
+        if p["pyKind"] == "xmlenum":
+            for st in p["sites"]:
+                by[st["attr"].split(":")[-1]].append((p, st))
+    out = []
+
+    def read(site, tok):
+        el = D.make_element(site)
+        el.set(D.clark(site), tok)
+        try:
+            v = getattr(el, site["prop"])
+            return True, type(v).__name__, str(getattr(v, "xml_value", ""))
+        except Exception as e:      # noqa: BLE001
+            return False, "!" + type(e).__name__, ""
+    for _pass in (1, 2):
+        for attr, lst in sorted(by.items()):
+            for pa, sa in lst:
+                for pb, sb in lst:
+                    if pa["py"] == pb["py"]:
+                        continue
+                    common = {m["tok"] for m in pa["pyMembers"] if m["tok"]} & {m["tok"] for m in pb["pyMembers"] if m["tok"]}
+                    for tok in sorted(common):
+                        read(sa, tok)
+                        ok, ty, got = read(sb, tok)
+                        out.append({"attr": attr, "tok": tok, "first": "%s:%s@%s" % (sa["pfx"], sa["tag"], sa["attr"]),
+                                    "site": "%s:%s@%s" % (sb["pfx"], sb["tag"], sb["attr"]), "enum": pb["py"], "ok": ok, "gotType": ty, "gotTok": got})
+    return out
